@@ -2859,10 +2859,18 @@ func (r *Stack) Marshal(in ...any) (err error) {
 			err = sc.maf(in...)
 		} else {
 			// use default marshaler
+			before := r.Len()
 			if xs, xc, err = marshalDefault(in); xs.IsInit() {
 				r.Push(xs)
 			} else if xc.IsInit() {
 				r.Push(xc)
+			}
+
+			// the decoded value becomes one new element; a
+			// receiver that is full, read-only or refuses it
+			// by policy must not let that pass for success.
+			if err == nil && r.Len() == before {
+				err = errorf("Marshal: receiver did not accept the decoded value")
 			}
 		}
 	}
